@@ -79,8 +79,9 @@ func main() {
 	}
 	initRunDir()
 	if *out != "" {
+		// (removed explicitly at the normal end only: a panic on this goroutine, inside code under
+		// test that the harness calls directly, must leave the crumb behind)
 		crumbPath = *out + ".current"
-		defer os.Remove(crumbPath)
 	}
 	rep := &Report{Property: *prop, Tier: *tier, Seed: *seed, Distribution: map[string]int{}, Extra: map[string]interface{}{}}
 	start := time.Now()
